@@ -36,6 +36,19 @@ func (r roots) methodIndex(method string) int {
 	return -1
 }
 
+// route returns the route registered for method under exactly this pattern, or nil. Unlike lookup it does not
+// interpret the pattern as a request: the tree stores patterns verbatim, so an exact search of the edges is enough.
+func (r roots) route(method, pattern string) *Route {
+	index := r.methodIndex(method)
+	if index < 0 {
+		return nil
+	}
+	if n := r.search(r[index], pattern); n != nil && n.isLeaf() && n.route.pattern == pattern {
+		return n.route
+	}
+	return nil
+}
+
 func (r roots) search(rootNode *node, path string) (matched *node) {
 	current := rootNode
 
@@ -450,10 +463,13 @@ Walk:
 		if charsMatched < len(path) {
 			// linear search
 			idx := -1
-			for i := 0; i < len(current.childKeys); i++ {
-				if current.childKeys[i] == path[charsMatched] {
-					idx = i
-					break
+			// A '{' or '*' in the request is never a static match for the key of a param or catch-all child.
+			if path[charsMatched] != bracketDelim && path[charsMatched] != starDelim {
+				for i := 0; i < len(current.childKeys); i++ {
+					if current.childKeys[i] == path[charsMatched] {
+						idx = i
+						break
+					}
 				}
 			}
 
